@@ -8,7 +8,7 @@
     pre-order (Refs/NotifiedDeep.v, Refs/CoherentRenDeep.v).  (pathB) *)
 From Coq Require Import List Arith Bool ZArith Lia.
 From P9V Require Import Refs.Model Refs.PathFS Refs.RefProofs Refs.RefStep Refs.FenceProofs Refs.TreeInv Refs.NotifiedDeep
-  Refs.CoherentTree Refs.CoherentDefs Refs.CoherentFs Refs.CoherentFrame Refs.CoherentStep Refs.CoherentUnlink
+  Refs.CoherentTree Refs.CoherentDefs Refs.CoherentFs Refs.CoherentFrame Refs.CoherentStep Refs.CoherentTreeHyp Refs.CoherentUnlink
   Refs.CoherentRemove Refs.CoherentRenFs Refs.CoherentRenFrame Refs.CoherentRenLoop Refs.CoherentRenDeep Refs.CoherentRenGlue.
 Import ListNotations.
 
@@ -81,6 +81,35 @@ Proof.
     + intros m H. destruct (RD m) as (_ & ->). exact H.
   - intros m. rewrite GN. destruct ((m =? n) && (n <? nlen s)); reflexivity.
 Qed.
+
+(** markChildDeleted calls nothing *)
+Lemma log_notify_delete fuel : forall n (s : st), s_log pfs (notify_delete pfs fuel n s) = s_log pfs s.
+Proof.
+  induction fuel as [|f IH]; intros n s; cbn [notify_delete]; [reflexivity|].
+  assert (E1 : s_log pfs (set_node pfs n (pn_with_deleted (get_node pfs s n)) s) = s_log pfs s) by reflexivity.
+  revert E1. generalize (set_node pfs n (pn_with_deleted (get_node pfs s n)) s). generalize (pn_nodes (get_node pfs s n)).
+  intros l. induction l as [|a l IHl]; intros s0 E0; cbn [fold_left]; auto. apply IHl. rewrite IH. exact E0.
+Qed.
+
+Lemma log_rwn_none n nm m : forall held (s : st), s_log pfs (snd (rwn_loop pfs n nm None m held s)) = s_log pfs s.
+Proof. induction m as [|r m IH]; intros held s; cbn [rwn_loop]; [reflexivity|]. cbv zeta. rewrite IH. reflexivity. Qed.
+
+Lemma log_mcd n nm (s : st) : s_log pfs (mark_child_deleted pfs pfs_step n nm s) = s_log pfs s.
+Proof.
+  unfold mark_child_deleted, remove_with_name.
+  set (lp := match alookup Nat.eqb nm (pn_refs (get_node pfs s n)) with
+             | Some m => rwn_loop pfs n nm None m [] s | None => ([], s) end).
+  assert (H1 : fst lp = [] /\ s_log pfs (snd lp) = s_log pfs s).
+  { unfold lp. destruct (alookup Nat.eqb nm (pn_refs (get_node pfs s n))); [|auto]. split; [apply held_rwn_none | apply log_rwn_none]. }
+  destruct lp as [held s1]. cbn [fst snd] in H1. destruct H1 as (-> & L1). cbn [release_all].
+  destruct (alookup Nat.eqb nm (pn_nodes (get_node pfs s1 n))); [rewrite log_notify_delete|]; exact L1.
+Qed.
+
+Lemma tell_renamed (s : st) e : filter is_renamed (tell pfs s e) = tell pfs s e.
+Proof. unfold tell. destruct (liveb pfs s (fst e)); auto. destruct (fr_parent (gref s (fst e))); reflexivity. Qed.
+
+Lemma tells_renamed (s : st) L : filter is_renamed (flat_map (tell pfs s) L) = flat_map (tell pfs s) L.
+Proof. induction L as [|e L IH]; cbn; auto. rewrite filter_app, tell_renamed, IH. reflexivity. Qed.
 
 Section Ren.
 Variables (s : st) (d : list nat) (g : list (option nat)) (xr t old new : nat) (s1 : st) (d1 d2 x : nat).
@@ -184,7 +213,7 @@ Lemma r_ml r : In r ml ->
   exists p, fr_parent (gref s r) = Some p /\ p < rlen s /\ fr_node (gref s p) = fnode.
 Proof.
   unfold ml. rewrite r_ml_lookup. destruct (alookup Nat.eqb old (pn_refs (gnode s fnode))) as [m|] eqn:E; [|intros []].
-  intros Hr. destruct T as (TO & _).
+  intros Hr. pose proof T as TO.
   assert (Rg : registered pfs s fnode r old) by (apply (T_agree pfs s TO fnode r old r_fn); exists m; auto).
   destruct (T_reg pfs s TO fnode r old r_fn Rg) as (A1 & A2 & p & A3 & A4 & A5 & A6).
   split; [exact A1|]. split; [exact A2|]. split; [apply (G_parent _ _ G r p A1 A3)|]. split; [exact A6|]. eauto.
@@ -193,7 +222,7 @@ Qed.
 Lemma r_ml_nodup : NoDup ml.
 Proof.
   unfold ml. rewrite r_ml_lookup. destruct (alookup Nat.eqb old (pn_refs (gnode s fnode))) as [m|] eqn:E; [|constructor].
-  destruct T as (TO & _). apply (T_nodup pfs s TO fnode old m r_fn E).
+  pose proof T as TO. apply (T_nodup pfs s TO fnode old m r_fn E).
 Qed.
 
 Lemma r_b2 : ~ prefix (p1 ++ [old]) p2. Proof. apply (M_b2 _ _ _ _ _ _ _ _ _ M). Qed.
@@ -203,6 +232,26 @@ Proof.
   intros H. destruct (r_ml t H) as (_ & _ & _ & C & _). fold tn in C.
   assert (W : node_at s (p1 ++ [old]) = Some tn) by (unfold node_at; rewrite walk_snoc; fold (node_at s p1); rewrite r_wn1; exact C).
   pose proof (walk_inj (nch s) 0 (N_up _ N) (N_noroot _ N) _ _ _ W r_wn2) as E. apply r_b2. rewrite <- E. apply prefix_refl.
+Qed.
+
+(** the parent chain of a fidRef whose node is on the way to the source directory stays on that way *)
+Lemma r_chain p q' : up s p q' -> p < rlen s -> live s p -> tref s p -> nonf s p ->
+  (exists rho, prefix rho p1 /\ node_at s rho = Some (fr_node (gref s p))) ->
+  exists rho', prefix rho' p1 /\ node_at s rho' = Some (fr_node (gref s q')).
+Proof.
+  intros U. induction U as [r | r pp q E U IH | r o q E U IH]; intros Lr Lv Tr Nf (rho & Pr & Wr).
+  - eauto.
+  - destruct (G_parent _ _ G r pp Lr E) as (_ & Tpp & Lpp).
+    destruct (inv_live pfs s d pp Inv (C_parent pfs s r pp Lr Lv E)) as (_ & Lvpp).
+    pose proof (G_pnonf _ _ G r pp Lr Lv Nf E) as Nfpp.
+    destruct (p3_of_tree s r pp T Lr Lv Nf E) as (y & Cy).
+    apply IH; auto.
+    destruct rho as [|y0 rho0] using rev_ind.
+    + exfalso. cbn in Wr. injection Wr as W0. rewrite <- W0 in Cy. eapply (N_noroot _ N); eauto.
+    + clear IHrho0. unfold node_at in Wr. rewrite walk_snoc in Wr. destruct (walk (nch s) 0 rho0) as [m|] eqn:Wm; [|discriminate].
+      destruct (N_up _ N _ _ _ _ _ Wr Cy) as (-> & _). exists rho0. split; [|exact Wm].
+      eapply prefix_trans; [apply prefix_app | exact Pr].
+  - unfold tref in Tr. congruence.
 Qed.
 
 (** ---- level 0 ---- *)
@@ -217,16 +266,18 @@ Definition SB1 : st := snd lp.
 Lemma r_tnA : fr_node (gref SA t) = tn.
 Proof. destruct r_sa as (A & _). rewrite A. reflexivity. Qed.
 
-Lemma r_loop : exists T', LI SA fnode t P2new d SB1 T' ml.
+Lemma r_loop : exists T', LI SA fnode t new P2new ml d SB1 T' ml.
 Proof.
   destruct r_sa as (GA & BA & HA & LA & CA & DA & KA & (IA & HcA) & PA).
-  assert (L0 : LI SA fnode t P2new d SA [] []).
-  { constructor; auto.
+  assert (L0 : forall al, LI SA fnode t new P2new al d SA [] []).
+  { intros al. apply mkLI; auto.
     - apply lf_refl.
-    - intros q []. 
-    - split; [apply incl_refl | intros q []]. }
-  unfold SB1, lp, ml. destruct (alookup Nat.eqb old (pn_refs (gnode SA fnode))) as [m|] eqn:E; [|exists []; exact L0].
-  assert (Eml : ml = m) by (unfold ml; rewrite E; reflexivity).
+    - intros q [].
+    - split; [apply incl_refl | intros q []].
+    - cbn. rewrite app_nil_r. reflexivity. }
+  assert (Eml0 : alookup Nat.eqb old (pn_refs (gnode SA fnode)) = None -> ml = []) by (intros E; unfold ml; rewrite E; reflexivity).
+  unfold SB1, lp. destruct (alookup Nat.eqb old (pn_refs (gnode SA fnode))) as [m|] eqn:E; [|exists []; rewrite (Eml0 eq_refl); apply L0].
+  assert (Eml : ml = m) by (unfold ml; rewrite E; reflexivity). rewrite Eml.
   assert (RL : rlen SA = rlen s).
   { unfold rlen. destruct (mcd_spec tn new s1 r_tn1) as ((_ & R' & _) & _). fold SA in R'. rewrite R'. destruct E1 as (R & _). rewrite R. reflexivity. }
   assert (H1 : t < rlen SA /\ tref SA t /\ ~ In t m).
@@ -239,7 +290,22 @@ Proof.
   assert (H4 : forall q q', q < rlen SA -> q' < rlen SA -> tref SA q -> tref SA q' -> fr_file (gref SA q) = fr_file (gref SA q') -> q = q').
   { intros q q'. rewrite RL. unfold tref. rewrite !GA. apply (G_file_inj _ _ G). }
   assert (H5 : NoDup ([] ++ m)) by (cbn [app]; rewrite <- Eml; apply r_ml_nodup).
-  exact (loop_all SA fnode old t new P2new m d H1 H2 H3 H4 m SA [] [] [] L0 (incl_refl _) H5).
+  assert (H6 : forall r, In r m -> live SA r).
+  { intros r Hr. rewrite <- Eml in Hr. destruct (r_ml r Hr) as (_ & A2 & _). unfold live. rewrite GA. exact A2. }
+  assert (H7 : forall r p q', In r m -> fr_parent (gref SA r) = Some p -> up SA p q' -> ~ In q' m).
+  { intros r p q' Hr Ep U Hq'. rewrite <- Eml in Hr, Hq'. rewrite GA in Ep.
+    destruct (r_ml r Hr) as (Lr & Lvr & Tr & Cr & p0 & Ep0 & Lp0 & Np0). rewrite Ep in Ep0. injection Ep0 as <-.
+    assert (Us : up s p q') by (eapply up_links; [|exact U]; intros z; rewrite GA; auto).
+    destruct (G_parent _ _ G r p Lr Ep) as (_ & Tp & _).
+    destruct (inv_live pfs s d p Inv (C_parent pfs s r p Lr Lvr Ep)) as (_ & Lvp).
+    assert (Nfp : nonf s p). { unfold nonf, is_deleted. rewrite Np0. apply Hxr. }
+    destruct (r_chain p q' Us Lp0 Lvp Tp Nfp) as (rho' & Pr' & Wr').
+    { exists p1. split; [apply prefix_refl | rewrite Np0; apply r_wn1]. }
+    destruct (r_ml q' Hq') as (_ & _ & _ & Cq & _).
+    assert (W2 : node_at s (p1 ++ [old]) = Some (fr_node (gref s q'))) by (unfold node_at; rewrite walk_snoc; fold (node_at s p1); rewrite r_wn1; exact Cq).
+    pose proof (walk_inj (nch s) 0 (N_up _ N) (N_noroot _ N) _ _ _ Wr' W2) as Erho. subst rho'.
+    apply prefix_length in Pr'. rewrite app_length in Pr'. cbn in Pr'. lia. }
+  exact (loop_all SA fnode old t new P2new m d H1 H2 H3 H4 H6 H7 m SA [] [] [] (L0 m) (incl_refl _) H5).
 Qed.
 
 (** ---- the states after level 0 ---- *)
@@ -253,11 +319,12 @@ Record At (S : st) (T' : list nat) (sp : nat -> nat -> option nat) : Prop := mkA
   A_T : incl T' ml /\ forall q, In q ml -> live S q -> In q T';
   A_sub : forall n q nm, n <> fnode -> n <> tn -> inreg S n q nm -> inreg SA n q nm;
   A_keep : forall n q nm, n <> fnode -> n <> tn -> inreg SA n q nm -> live S q -> inreg S n q nm;
-  A_ent : p_entries (s_be pfs S) = p_entries (s_be pfs SA) }.
+  A_ent : p_entries (s_be pfs S) = p_entries (s_be pfs SA);
+  A_log : rcalls S = rcalls SA ++ map (told0 SA t new) ml }.
 
-Lemma at_loop T' : LI SA fnode t P2new d SB1 T' ml -> At SB1 T' (nch SA).
+Lemma at_loop T' : LI SA fnode t new P2new ml d SB1 T' ml -> At SB1 T' (nch SA).
 Proof.
-  intros [Llf Linv Lpar Ltold Lrest LT]. rewrite r_tnA in Llf. destruct r_sa as (_ & _ & _ & _ & _ & _ & KA & _).
+  intros [Llf Linv Lpar Ltold Lrest LT Lall Llog Lcnt]. rewrite r_tnA in Llf. destruct r_sa as (_ & _ & _ & _ & _ & _ & KA & _).
   apply mkAt.
   - apply wf_of_rf. apply Llf.
   - intros a y. unfold nch. destruct (RF_nodes _ _ (LF_rf _ _ _ _ Llf) a) as (-> & _). reflexivity.
@@ -269,11 +336,12 @@ Proof.
   - intros n q nm A1 A2. apply (LF_sub _ _ _ _ Llf); auto.
   - intros n q nm A1 A2. apply (LF_keep _ _ _ _ Llf); auto.
   - apply (RF_fs _ _ (LF_rf _ _ _ _ Llf)).
+  - exact Llog.
 Qed.
 
 Lemma at_cf S T' sp S' : At S T' sp -> cframe S S' -> At S' T' sp.
 Proof.
-  intros [Awf Anch Adel Apar Atold Arest (AT1 & AT2) Asub Akeep Aent] C.
+  intros [Awf Anch Adel Apar Atold Arest (AT1 & AT2) Asub Akeep Aent Alog] C.
   pose proof (CF_rf _ _ C) as R.
   constructor.
   - eapply wf_trans; [exact Awf | apply wf_of_rf; exact R].
@@ -288,12 +356,13 @@ Proof.
     + apply (W_keys _ _ Awf). apply r_sa.
     + apply Akeep; auto. apply (RF_live _ _ R). exact Lq.
   - destruct (RF_fs _ _ R) as (-> & _). exact Aent.
+  - rewrite (CF_rlog _ _ C). exact Alog.
 Qed.
 
 Lemma at_nodes S T' sp n f : At S T' sp -> n < nlen S -> NoDup (map fst f) ->
   At (set_node pfs n (pn_with_nodes (gnode S n) f) S) T' (fun a y => if a =? n then alookup Nat.eqb y f else sp a y).
 Proof.
-  intros [Awf Anch Adel Apar Atold Arest (AT1 & AT2) Asub Akeep Aent] Hn ND.
+  intros [Awf Anch Adel Apar Atold Arest (AT1 & AT2) Asub Akeep Aent Alog] Hn ND.
   destruct (set_nodes_facts n f S ND) as (W & GR & BE & RD & PN & _). cbv zeta in *.
   set (S' := set_node pfs n (pn_with_nodes (gnode S n) f) S) in *.
   assert (IR : forall m q nm, inreg S' m q nm <-> inreg S m q nm).
@@ -311,6 +380,7 @@ Proof.
   - intros m q nm A1 A2 H. apply Asub; auto. apply IR. exact H.
   - intros m q nm A1 A2 H Lq. apply IR. apply Akeep; auto.
   - rewrite BE. exact Aent.
+  - exact Alog.
 Qed.
 
 Definition SB2 : st := set_node pfs fnode (pn_with_nodes (gnode SB1 fnode) (adel Nat.eqb old (pn_nodes (gnode SB1 fnode)))) SB1.
@@ -334,7 +404,7 @@ Proof.
   pose proof (at_nodes SB1 T' (nch SA) fnode _ A1 Hn ND) as A2. fold SB2 in A2.
   pose proof (at_cf SB2 T' _ SB A2 (cf_release_all (fst lp) SB2)) as A3.
   exists T'. split.
-  - destruct A3 as [Awf Anch Adel Apar Atold Arest AT Asub Akeep Aent]. constructor; auto.
+  - destruct A3 as [Awf Anch Adel Apar Atold Arest AT Asub Akeep Aent Alog]. constructor; auto.
     intros a y. rewrite Anch. unfold spB, peqb. cbn [fst snd].
     destruct (Nat.eqb_spec a fnode) as [->|Na]; cbn [andb].
     + rewrite (alookup_adel Nat.eqb Nat.eqb_spec). fold (nch SB1 fnode y). rewrite (A_nch _ _ _ A1), CA. unfold peqb. cbn [fst snd].
@@ -482,6 +552,26 @@ Proof.
   - intros r o Hr E. rewrite RL in Hr. destruct (RF r) as (_ & _ & Ex & Em & _). rewrite Ex in E.
     pose proof (G_xmode _ _ G r o Hr E) as X. unfold xmode in Em. rewrite Ex, E in Em. rewrite Em. exact X.
   - intros r Hr Ep Tr. rewrite RL in Hr. destruct (RF r) as (_ & -> & _ & _ & Epn). apply (G_root _ _ G); auto; [apply Epn; auto | apply TR; auto].
+  - intros r p Hr Lv Nf Ep. rewrite RL in Hr. destruct (NFA r Nf) as (NfA & Nfs). pose proof (W_live _ _ W r Lv) as Lvs.
+    assert (K1 : rkeys s1) by (intros n; rewrite r_gn1; apply (G_keys _ _ G)).
+    unfold nonf, is_deleted. destruct (RF p) as (_ & -> & _). rewrite Hdel.
+    destruct (pn_deleted (gnode SA (fr_node (gref s p)))) eqn:X; auto. exfalso.
+    destruct (mcd_only tn new s1 _ r_tn1 K1 X) as [Hd|(v & sg & Hv & Wv)].
+    + rewrite r_gn1 in Hd. destruct (Hpar r) as [E'|(E' & NN)]; rewrite E' in Ep.
+      * pose proof (G_pnonf _ _ G r p Hr Lvs Nfs Ep) as Nfp. unfold nonf, is_deleted in Nfp. congruence.
+      * injection Ep as <-. destruct Htt as (_ & Nft). unfold nonf, is_deleted in Nft. congruence.
+    + rewrite r_nch1 in Hv. rewrite (walk_eq _ _ r_nch1) in Wv.
+      assert (Wp : node_at s (p2 ++ [new] ++ sg) = Some (fr_node (gref s p))).
+      { unfold node_at. rewrite walk_app. fold (node_at s p2). rewrite r_wn2. cbn [app walk]. rewrite Hv. exact Wv. }
+      destruct (Hpar r) as [E'|(E' & NN)]; rewrite E' in Ep.
+      * destruct (p3_of_tree s r p T Hr Lvs Nfs Ep) as (y & Cy). destruct (G_parent _ _ G r p Hr Ep) as (Tr & _).
+        assert (Wq : node_at s (p2 ++ [new] ++ sg ++ [y]) = Some (fr_node (gref s r))).
+        { rewrite !app_assoc. unfold node_at. rewrite walk_snoc. rewrite <- !app_assoc. fold (node_at s (p2 ++ [new] ++ sg)). rewrite Wp. exact Cy. }
+        pose proof (walk_inj (nch s) 0 (N_up _ N) (N_noroot _ N) _ _ _ (G_node _ _ G r Hr Lvs Tr Nfs) Wq) as E.
+        pose proof (victim_fenced r (sg ++ [y]) E Hr Lvs Tr Nfs) as Y. unfold nonf in NfA. congruence.
+      * injection Ep as <-. fold tn in Wp.
+        pose proof (walk_inj (nch s) 0 (N_up _ N) (N_noroot _ N) _ _ _ Wp r_wn2) as E.
+        apply (f_equal (@length nat)) in E. rewrite !app_length in E. cbn in E. lia.
   - apply (W_keys _ _ W). apply (G_keys _ _ G).
   - rewrite RL. apply (G_len _ _ G).
 Qed.
@@ -489,7 +579,7 @@ Qed.
 (** a live, non-fenced fidRef whose node is the moved node is registered under the old name *)
 Lemma r_level0 q : q < rlen s -> live s q -> tref s q -> nonf s q -> nch s fnode old = Some (fr_node (gref s q)) -> In q ml.
 Proof.
-  intros Lq Lv Tq Nf Hc. destruct T as (TO & TC).
+  intros Lq Lv Tq Nf Hc. pose proof T as TO.
   destruct (fr_parent (gref s q)) as [pp|] eqn:Ep.
   2:{ exfalso. pose proof (G_root _ _ G q Lq Ep Tq) as E0. rewrite E0 in Hc. eapply (N_noroot _ N); eauto. }
   destruct (T_live pfs s TO q pp Lq Lv Ep Nf) as (nm & Rg).
@@ -546,7 +636,7 @@ Proof.
     assert (ND : NoDup (map fst (aset Nat.eqb new c (pn_nodes (gnode SB tn))))).
     { apply (gaset_nodup Nat.eqb Nat.eqb_spec). apply (W_keys _ _ (A_wf _ _ _ A)). exact KA. }
     pose proof (at_nodes SB T' spB tn _ A Hn ND) as A2. fold (SC c) in A2.
-    destruct A2 as [Awf Anch Adel Apar Atold Arest AT Asub Akeep Aent]. constructor; auto.
+    destruct A2 as [Awf Anch Adel Apar Atold Arest AT Asub Akeep Aent Alog]. constructor; auto.
     intros a y. rewrite Anch. unfold spF, spB, peqb. cbn [fst snd].
     destruct (Nat.eqb_spec a tn) as [->|Na]; cbn [andb].
     + rewrite (alookup_aset Nat.eqb Nat.eqb_spec). destruct (Nat.eqb_spec y new) as [->|Ny]; [symmetry; exact Eo|].
@@ -617,7 +707,7 @@ Lemma c_reg_s m q nm : m <> fnode -> m <> tn -> m < nlen s -> inreg (SC c) m q n
 Proof.
   intros N1 N2 Hm H. apply (A_sub _ _ _ A) in H; auto. unfold inreg in H. destruct r_sa_refs as (RS & _).
   unfold regs_of in H. rewrite (RS m N2) in H. fold (regs_of (gnode s m)) in H. apply in_regs_of in H. destruct H as (mm & H1 & H2).
-  destruct T as (TO & _).
+  pose proof T as TO.
   assert (Rg : registered pfs s m q nm).
   { apply (T_agree pfs s TO m q nm Hm). exists mm. split; auto. apply (In_alookup Nat.eqb Nat.eqb_spec); auto. apply (G_keys _ _ G). }
   destruct (T_reg pfs s TO m q nm Hm Rg) as (A1 & A2 & p & A3 & A4 & A5 & A6).
@@ -637,7 +727,7 @@ Proof.
   split; [exact LpC|]. split; [exact LvpC|]. split; [unfold tref; destruct (c_rf p) as (_ & _ & ->); exact Tp|].
   (* the parent is not fenced either *)
   destruct (c_nonf q Nf) as (NfA & Nfs). pose proof (c_live q Lv) as Lvs.
-  pose proof (parent_nonf s q p T Lq Lvs Nfs Ep) as Nfp.
+  pose proof (parent_nonf s g q p G Lq Lvs Nfs Ep) as Nfp.
   unfold nonf, is_deleted. destruct (c_rf p) as (_ & -> & _). rewrite (A_del _ _ _ A).
   destruct (pn_deleted (gnode SA (fr_node (gref s p)))) eqn:X; auto. exfalso.
   assert (K1 : rkeys s1) by (intros n; rewrite r_gn1; apply (G_keys _ _ G)).
@@ -645,7 +735,7 @@ Proof.
   { rewrite r_gn1 in Hd. unfold nonf, is_deleted in Nfp. congruence. }
   rewrite r_nch1 in Hv. rewrite (walk_eq _ _ r_nch1) in Wv.
   (* then q's own path runs through the victim *)
-  destruct T as (TO & _). destruct (T_live pfs s TO q p Lq Lvs Ep Nfs) as (nm & Rg).
+  pose proof T as TO. destruct (T_live pfs s TO q p Lq Lvs Ep Nfs) as (nm & Rg).
   pose proof (T_node_bound pfs s TO p Lp) as Hn.
   destruct (T_reg pfs s TO _ q nm Hn Rg) as (_ & _ & p' & Ep' & _ & En & Cn). 
   assert (Wq : node_at s (p2 ++ [new] ++ sg ++ [nm]) = Some (fr_node (gref s q))).
@@ -696,7 +786,7 @@ Proof.
   (* q has a parent, and is registered in its node *)
   destruct (fr_parent (gref s q)) as [p|] eqn:Ep.
   2:{ exfalso. pose proof (G_root _ _ G q Lq Ep Tq) as E0. rewrite E0 in Cs. eapply (N_noroot _ N); eauto. }
-  destruct T as (TO & _). destruct (T_live pfs s TO q p Lq Lvs Ep Nfs) as (nm & Rg).
+  pose proof T as TO. destruct (T_live pfs s TO q p Lq Lvs Ep Nfs) as (nm & Rg).
   destruct (G_parent _ _ G q p Lq Ep) as (_ & Tp & Lp).
   pose proof (T_node_bound pfs s TO p Lp) as Hn.
   destruct (T_reg pfs s TO _ q nm Hn Rg) as (_ & _ & p' & Ep' & _ & En & Cn).
@@ -851,6 +941,13 @@ Proof.
   - destruct (RF_fs _ _ R) as (-> & _). rewrite De, (A_ent _ _ _ A), BA. reflexivity.
   - apply d_paths.
 Qed.
+Lemma d_log : rcalls SF = rcalls s1 ++ map (told0 SA t new) ml ++ flat_map (tell pfs (SC c)) L.
+Proof.
+  pose proof (cf_release_all (fst hsD) SD) as CF. fold SF in CF. rewrite (CF_rlog _ _ CF).
+  destruct (notify_name_change_tr pfs pfs_step (node_fuel pfs (SC c)) c ([], SC c)) as ((C1 & _) & _). cbn [snd] in C1. fold hsD in C1. fold SD in C1. fold L in C1.
+  unfold rcalls at 1. rewrite C1, filter_app, tells_renamed. fold (rcalls (SC c)). rewrite (A_log _ _ _ A).
+  unfold rcalls at 1. unfold calls, SA. rewrite log_mcd. fold (calls pfs s1). fold (rcalls s1). rewrite <- app_assoc. reflexivity.
+Qed.
 End SomeCase.
 
 (** renameChildTo as a whole *)
@@ -869,6 +966,31 @@ Proof.
   destruct (s_panic pfs (SC c)) eqn:PC; [intros H; congruence|]. intros _.
   change (notify_name_change pfs pfs_step (node_fuel pfs (SC c)) c ([], SC c)) with (hsD c).
   pose proof (d_good c T' Ec A IC) as GF. unfold SF, SD in GF. destruct (hsD c) as [held s4]. exact GF.
+Qed.
+(** the Renamed calls of renameChildTo *)
+Definition deep_calls : list bcall :=
+  match orig with
+  | Some c => flat_map (tell pfs (SC c)) (below pfs (node_fuel pfs (SC c)) (SC c) c)
+  | None => []
+  end.
+
+Lemma r_result_log :
+  s_panic pfs (rename_child_to pfs pfs_step fnode old t new s1) = false ->
+  rcalls (rename_child_to pfs pfs_step fnode old t new s1) = rcalls s1 ++ map (told0 SA t new) ml ++ deep_calls.
+Proof.
+  unfold rename_child_to, deep_calls. rewrite r_gr1. fold tn. fold SA. rewrite r_rwn.
+  destruct orig as [c|] eqn:Oc.
+  - destruct (r_atC c Oc) as (Ec & Eadd & T' & A). rewrite Eadd.
+    destruct r_sa as (_ & _ & _ & _ & _ & _ & _ & (IA & HcA) & _).
+    pose proof (remove_with_name_ok pfs pfs_step fnode old t new SA d IA HcA) as RW. cbv zeta in RW. rewrite r_rwn in RW. cbn [snd] in RW.
+    destruct RW as (IB & _).
+    pose proof (sc_add_path_node_for pfs tn new c SB) as SCC. rewrite Eadd in SCC.
+    destruct (sc_ok pfs SB (SC c) d SCC IB) as (IC & _).
+    destruct (s_panic pfs (SC c)) eqn:PC; [intros H; congruence|]. intros _.
+    change (notify_name_change pfs pfs_step (node_fuel pfs (SC c)) c ([], SC c)) with (hsD c).
+    pose proof (d_log c T' A) as DL. unfold SF, SD in DL. destruct (hsD c) as [held s4]. exact DL.
+  - intros _. destruct r_atB as (T' & A & _). rewrite (A_log _ _ _ A), app_nil_r.
+    unfold rcalls at 1. unfold calls, SA. rewrite log_mcd. reflexivity.
 Qed.
 End Ren.
 
